@@ -720,12 +720,19 @@ def eval_dispatch(payload, tmpdir):
     raise ValueError(how)
 
 
+UNREADABLE = []
+
+
 def eval_channel(payload, tmpdir):
     bad, las, p, data = oracle_channel(payload, tmpdir)
     ch = payload["channel"]
     kw = kwargs_of(payload)
     if bad and bad[0].startswith("generator error"):
-        raise RuntimeError(bad[0])
+        # unreadable through the string AND the StringIO channel: C10 says nothing about such a
+        # text (it is some other property's failure); counted, and a run with many of them is
+        # reported as a broken tie rather than passing vacuously
+        UNREADABLE.append(bad[0])
+        return [], None
     if bad and las is None and p is None and ch not in ("string", "StringIO"):
         return bad, None
     # observation for the model tie
@@ -1017,23 +1024,36 @@ def corpus_tuples():
     return out
 
 
+def default_changed():
+    """None, or how a fresh LASFile() now differs from the first one of this process"""
+    import lasio
+    d0 = dump(lasio.LASFile())
+    if d0 != DEFAULT0[0]:
+        return first_diff(d0, DEFAULT0[0])
+    return None
+
+
 def stream(rng, n_tuples, n_decisions, n_dispatch, n_hist, tmpdir):
     """Yields (payload, violations, corr) for every generated case, in a fixed order."""
-    for p in corpus_tuples():
+    def single_cases():
+        for p in corpus_tuples():
+            yield p
+        for i in range(n_tuples):
+            yield gen_tuple(rng, i)
+        for _ in range(n_decisions):
+            yield gen_decision(rng)
+        for _ in range(n_dispatch):
+            yield gen_dispatch(rng)
+
+    for p in single_cases():
         bad, corr = eval_case(p, tmpdir)
         yield p, bad, corr
-    for i in range(n_tuples):
-        p = gen_tuple(rng, i)
-        bad, corr = eval_case(p, tmpdir)
-        yield p, bad, corr
-    for _ in range(n_decisions):
-        p = gen_decision(rng)
-        bad, corr = eval_case(p, tmpdir)
-        yield p, bad, corr
-    for _ in range(n_dispatch):
-        p = gen_dispatch(rng)
-        bad, corr = eval_case(p, tmpdir)
-        yield p, bad, corr
+        ch = default_changed()
+        if ch:
+            # self-contained: fresh LASFile(), this one call, fresh LASFile() again
+            yield ({"kind": "purity", "case": p},
+                   ["after this single %s call a fresh LASFile() differs from the one created before it: %s" % (p["kind"], ch)], None)
+            return       # the process state is polluted from here on
     for k in range(n_hist):
         h = gen_history(rng)
         with tempfile.TemporaryDirectory(prefix="c10h_", dir=tmpdir) as hd:
@@ -1058,12 +1078,15 @@ def run(ctx):
     n_steps = 0
     samples = []
     init_default()
+    del UNREADABLE[:]
     with tempfile.TemporaryDirectory(prefix="c10_") as tmpdir:
         for p, bad, corr in stream(rng, n_t, n_d, n_j, n_h, tmpdir):
             kind = p["kind"]
             hist[kind] += 1
             for b in bad:
                 res.oracle_violations.append({"payload": p, "what": b})
+            if kind == "purity":
+                continue
             if kind == "history":
                 n_steps += len(p["steps"])
                 for st in p["steps"]:
@@ -1084,7 +1107,7 @@ def run(ctx):
                 payloads.append(p)
     # a purity break makes later channel cases fail in ways that do not replay in a fresh
     # process; a history is self-contained, so history violations are reported first
-    res.oracle_violations.sort(key=lambda v: 0 if v["payload"]["kind"] == "history" else 1)
+    res.oracle_violations.sort(key=lambda v: 0 if v["payload"]["kind"] in ("history", "purity") else 1)
     if ctx.build.model_ok:
         mism, err = lib.run_coq_cases("c10", [], RUN_DEF, cases, shard=100)
         res.corr_error = err
@@ -1092,6 +1115,10 @@ def run(ctx):
             res.mismatches.append({"payload": payloads[i], "impl": cases[i][1]})
     else:
         res.corr_error = "model not built"
+    hist["unreadable_text_skipped"] = len(UNREADABLE)
+    if len(UNREADABLE) * 20 > max(1, hist["channel"]) and not res.oracle_violations:
+        res.corr_error = (res.corr_error or "") + "\n%d generated texts are unreadable through every channel, e.g. %s" % (
+            len(UNREADABLE), UNREADABLE[0])
     res.cases += n_steps
     res.distinct_nontrivial = len(nontrivial)
     res.rule = ("cases = channel/decision/dispatch calls + history steps. non-trivial = distinct (text, channel, encoding, newline, "
@@ -1111,6 +1138,11 @@ def replay(payload):
         if payload["kind"] == "history":
             bad = run_history(payload, tmpdir)
             return (bad is not None), (bad or "history replays without a purity violation")
+        if payload["kind"] == "purity":
+            eval_case(payload["case"], tmpdir)
+            ch = default_changed()
+            return (ch is not None), ("after the call a fresh LASFile() differs from the one created before it: %s" % ch
+                                      if ch else "fresh LASFile() unchanged by the call")
         bad, _ = eval_case(payload, tmpdir)
         return bool(bad), ("; ".join(bad) if bad else "ok")
 
